@@ -249,6 +249,22 @@ def weave(item, ops, twin, fnname, rewrite_log):
             origin.insert(at + n, {'kind': 'ghost', 'fn': fnname, 'label': label, 'unit_line': uline + 1 + n,
                                    'text': p.strip()})
 
+    if twin:
+        # entry probe: right after the body's opening brace
+        joined = '\n'.join(lines)
+        try:
+            bo = _find_sig_body_open(joined)
+        except UnitError:
+            bo = -1
+        if bo >= 0 and joined[bo] == '{' and re.search(r'\bfn\b', joined):
+            ln = joined.count('\n', 0, bo)
+            col = bo - (joined.rfind('\n', 0, bo) + 1)
+            head, tail = lines[ln][:col + 1], lines[ln][col + 1:]
+            o = origin[ln]
+            lines[ln] = head
+            lines.insert(ln + 1, tail)
+            origin.insert(ln + 1, dict(o))
+            insert(ln + 1, ['assert(false); // VACUITY-PROBE entry'], 'probe', 0)
     for op, args, payload, uline in ops:
         if op in ('ret', 'sub', 'closure'):
             continue
@@ -311,22 +327,6 @@ def weave(item, ops, twin, fnname, rewrite_log):
                 insert(ln + 1, ['assert(false); // VACUITY-PROBE'], 'probe', uline)
         else:
             raise UnitError('unknown weave op %s' % op)
-    if twin:
-        # entry probe: right after the body's opening brace
-        joined = '\n'.join(lines)
-        try:
-            bo = _find_sig_body_open(joined)
-        except UnitError:
-            bo = -1
-        if bo >= 0 and joined[bo] == '{' and re.search(r'\bfn\b', joined):
-            ln = joined.count('\n', 0, bo)
-            col = bo - (joined.rfind('\n', 0, bo) + 1)
-            head, tail = lines[ln][:col + 1], lines[ln][col + 1:]
-            o = origin[ln]
-            lines[ln] = head
-            lines.insert(ln + 1, tail)
-            origin.insert(ln + 1, dict(o))
-            insert(ln + 1, ['assert(false); // VACUITY-PROBE entry'], 'probe', 0)
     return lines, origin
 
 
